@@ -4,7 +4,9 @@
 (* fit.time_course / fit.protocol_time_course with LocalScipyMinimizer are *)
 (* validated, in batches, against the clauses of FitCore.tla.              *)
 (*                                                                         *)
-(* A trace is [id, copy, generated, ev], ev a sequence of events           *)
+(* A trace is [id, copy, generated, p0in, ev], ev a sequence of events     *)
+(* (parameter values are listed in the order of the caller's p0 keys,      *)
+(* which need not be alphabetical)                                         *)
 (*   entry(content)   caller's model content before the call               *)
 (*   start(ps,lh,lu)  the harness's own evaluation at the starting point   *)
 (*   eval(ps,lh,lu)   every call of the residual function during the fit   *)
@@ -34,7 +36,9 @@ Eff(tr, e, s) ==      \* [ok, st]
     CASE e.k = "entry"  -> [ok |-> s.phase = "init", st |-> [s EXCEPT !.phase = "entered", !.entry = e.content]]
       [] e.k = "start"  -> [ok |-> s.phase = "entered", st |-> [s EXCEPT !.phase = "run", !.start = Rec(e)]]
       \* (lf: what the loss function returned inside this call -- the residual IS that value)
-      [] e.k = "eval"   -> [ok |-> s.phase = "run" /\ Functional(Rec(e), s.evals \cup {s.start}) /\ (e.lf = "" \/ e.lf = e.lh),
+      \* (first: the minimiser starts AT the caller's p0 -- name by name -- whenever p0 lies inside the bounds)
+      [] e.k = "eval"   -> [ok |-> /\ s.phase = "run" /\ Functional(Rec(e), s.evals \cup {s.start}) /\ (e.lf = "" \/ e.lf = e.lh)
+                                   /\ ((s.evals = {} /\ tr.p0in) => e.ps = s.start.ps),
                             st |-> [s EXCEPT !.evals = @ \cup {Rec(e)}]]
       [] e.k = "report" -> [ok |-> /\ s.phase = "run"
                                    /\ NotContradicted(Rec(e), s.evals)
